@@ -43,6 +43,7 @@ type RStep struct {
 	From int      `json:"from"`
 	Len  int      `json:"len"`
 	Bk   bool     `json:"bk"`
+	Dup  bool     `json:"dup"` // the batch lists its first key once more at its end
 	Rs   []int    `json:"rs"`
 	M    string   `json:"m"`
 	Sigs [][]RSig `json:"sigs"`
@@ -159,10 +160,14 @@ func (w *rworld) matrix(c string, sigs [][]RSig) []any {
 	return out
 }
 
-func keysOf(from, ln int) []int {
+// keysOf is KeysOf of ContainerRoster.tla: ln consecutive pool keys from `from`, with dup the first one once more.
+func keysOf(from, ln int, dup bool) []int {
 	out := make([]int, ln)
 	for i := 1; i <= ln; i++ {
 		out[i-1] = ((from+i-2)%poolK+poolK)%poolK + 1
+	}
+	if dup && ln > 0 {
+		out = append(out, out[0])
 	}
 	return out
 }
@@ -176,7 +181,7 @@ func (w *rworld) rexec(st RStep) chain.Rec {
 	ntf := []any{}
 	switch st.Act {
 	case "add":
-		ks := keysOf(st.From, st.Len)
+		ks := keysOf(st.From, st.Len, st.Dup)
 		pubs := make([]any, len(ks))
 		for i, k := range ks {
 			pubs[i] = pool[k-1].PublicKey().Bytes()
@@ -244,7 +249,7 @@ func (w *rworld) rexec(st RStep) chain.Rec {
 	if st.S == nil {
 		names = []string{}
 	}
-	return chain.Rec{"act": st.Act, "S": names, "c": st.C, "v": st.V, "from": st.From, "len": st.Len, "bk": st.Bk, "rs": rs, "m": st.M,
+	return chain.Rec{"act": st.Act, "S": names, "c": st.C, "v": st.V, "from": st.From, "len": st.Len, "bk": st.Bk, "dup": st.Dup, "rs": rs, "m": st.M,
 		"sigs": sigs, "res": res, "ret": ret, "ntf": ntf, "fault": fault}
 }
 
@@ -382,7 +387,7 @@ func runRScenario(t *testing.T, rec *chain.Recorder, idx int, sc *RScenario, see
 	w.bad = nil
 	obs := w.robserve()
 	require.Empty(t, w.bad, "initial observation")
-	rec.Emit(chain.Rec{"t": idx, "act": "reset", "S": []string{}, "c": "nil", "v": 0, "from": 0, "len": 0, "bk": false, "rs": []int{}, "m": "nil",
+	rec.Emit(chain.Rec{"t": idx, "act": "reset", "S": []string{}, "c": "nil", "v": 0, "from": 0, "len": 0, "bk": false, "dup": false, "rs": []int{}, "m": "nil",
 		"sigs": []any{}, "res": "HALT", "ret": "null", "ntf": []any{}, "obs": obs, "bad": []string{}, "n": sc.N, "src": sc.Src})
 	for _, st := range sc.Steps {
 		w.bad = nil
@@ -414,6 +419,10 @@ func randRScenario(r *rand.Rand) *RScenario {
 		m.comm[c] = make([][]int, rMaxVec+1)
 	}
 	big := r.Intn(3) == 0 // some scenarios cross the 127 / 255 / 256 boundaries of the counter
+	// repeated keys: half of the small scenarios draw their batches from a handful of pool keys, so that a key turns
+	// up twice within a vector (in two batches) and in several vectors; any batch may also list its first key twice
+	narrow := !big && r.Intn(3) > 0
+	base := 1 + r.Intn(poolK)
 	sizes := []int{1, 1, 2, 2, 3, 4, 5, 0}
 	if big {
 		sizes = []int{1, 2, 126, 127, 128, 129, 254, 255, 256, 257, 300, 3}
@@ -443,11 +452,16 @@ func randRScenario(r *rand.Rand) *RScenario {
 			}
 			ln := sizes[r.Intn(len(sizes))]
 			from := 1 + r.Intn(poolK)
+			if narrow {
+				from = base + r.Intn(3)
+				ln = 1 + r.Intn(3)
+			}
 			s := sig()
 			bk := r.Intn(12) == 0 && ln > 0
-			sc.Steps = append(sc.Steps, RStep{Act: "add", S: s, C: c, V: v, From: from, Len: ln, Bk: bk, M: "nil"})
+			dup := ln > 0 && (r.Intn(6) == 0 || (narrow && r.Intn(3) == 0))
+			sc.Steps = append(sc.Steps, RStep{Act: "add", S: s, C: c, V: v, From: from, Len: ln, Bk: bk, Dup: dup, M: "nil"})
 			if len(s) == 1 && s[0] == "ALPHA" && !bk && (v == 0 || len(m.pend[c][v-1]) > 0) {
-				m.pend[c][v] = append(m.pend[c][v], keysOf(from, ln)...)
+				m.pend[c][v] = append(m.pend[c][v], keysOf(from, ln, dup)...)
 			}
 		case k < 5:
 			nv := 0
@@ -460,6 +474,9 @@ func randRScenario(r *rand.Rand) *RScenario {
 			rs := make([]int, nv)
 			for j := range rs {
 				rs[j] = 1 + r.Intn(4)
+				if narrow {
+					rs[j] = 2 + r.Intn(2) // REP 2..3 over a handful of keys: the interesting range for repeated members
+				}
 				if len(m.pend[c][j]) > 0 && rs[j] > len(m.pend[c][j]) && r.Intn(3) > 0 {
 					rs[j] = len(m.pend[c][j])
 				}
@@ -512,8 +529,48 @@ func randMatrix(r *rand.Rand, comm [][]int, reps []int) [][]RSig {
 			}
 			return mem[r.Intn(len(mem))]
 		}
+		// keys listed more than once in this vector, and the other (distinct) members
+		var repeated, others []int
+		cnt := map[int]int{}
+		for _, k := range mem {
+			cnt[k]++
+		}
+		for k, c := range cnt {
+			if c > 1 {
+				repeated = append(repeated, k)
+			}
+		}
+		sort.Ints(repeated)
+		kind := r.Intn(9)
+		if len(repeated) > 0 && r.Intn(2) == 0 {
+			kind = 9 + r.Intn(3)
+		}
 		var vec []RSig
-		switch r.Intn(9) {
+		switch kind {
+		case 9, 10, 11: // a member listed twice signs once / twice / as itself and its malleated twin, next to other members
+			k := repeated[r.Intn(len(repeated))]
+			for o := range cnt {
+				if o != k {
+					others = append(others, o)
+				}
+			}
+			sort.Ints(others)
+			r.Shuffle(len(others), func(a, b int) { others[a], others[b] = others[b], others[a] })
+			vec = append(vec, RSig{k, "m1", "ok"})
+			fill := rep - 1 // honest: the repeated member once and rep-1 other members
+			if kind == 10 {
+				vec = append(vec, RSig{k, "m1", "ok"})
+				fill = rep - 2 // its two listings must not make up for a missing member
+			} else if kind == 11 {
+				vec = append(vec, RSig{k, "m1", "mal"})
+				fill = rep - 2
+			}
+			if r.Intn(4) == 0 {
+				fill++ // ... unless there are enough other members anyway
+			}
+			for j := 0; j < fill && j < len(others); j++ {
+				vec = append(vec, RSig{others[j], "m1", "ok"})
+			}
 		case 0, 1: // honest: rep distinct members (as far as there are any)
 			p := r.Perm(len(mem))
 			for j := 0; j < rep && j < len(p); j++ {
@@ -644,6 +701,44 @@ func trapLongRoster(n int) *RScenario {
 	}}
 }
 
+// repeated keys: the same key twice within a batch (A,B,D,A), in two batches of one vector, and in two vectors.
+// nodes() returns it as often as it was submitted; for the signatures it is ONE member.
+func trapRepeatedKeys(n int) *RScenario {
+	dupAdd := func(c string, v, from, ln int) RStep {
+		return RStep{Act: "add", S: sA, C: c, V: v, From: from, Len: ln, Dup: true, M: "nil"}
+	}
+	return &RScenario{N: n, Src: "trap:repeatedkeys", Steps: []RStep{
+		dupAdd("c1", 0, 1, 3),                     // vector 0: 1,2,3,1
+		radd("c1", 1, 5, 2), radd("c1", 1, 5, 1), // vector 1: 5,6,5 (two batches)
+		radd("c1", 2, 1, 2),                      // vector 2: 1,2 (keys of vector 0)
+		rcommit("c1", 2, 2, 2),
+		rverify("c1", []RSig{ok(1), ok(2)}, []RSig{ok(5), ok(6)}, []RSig{ok(2), ok(1)}),           // honest
+		rverify("c1", []RSig{ok(1), ok(1)}, []RSig{ok(5), ok(6)}, []RSig{ok(1), ok(2)}),           // A twice for REP 2
+		rverify("c1", []RSig{ok(1), mal(1)}, []RSig{ok(5), ok(6)}, []RSig{ok(1), ok(2)}),          // A and its twin
+		rverify("c1", []RSig{ok(1), ok(2)}, []RSig{ok(5), ok(5)}, []RSig{ok(1), ok(2)}),           // repeated across batches
+		rverify("c1", []RSig{ok(1), ok(2)}, []RSig{ok(5), mal(5)}, []RSig{ok(1), ok(2)}),
+		rverify("c1", []RSig{ok(1), ok(1), ok(3)}, []RSig{ok(6), ok(5), ok(5)}, []RSig{ok(2), ok(1)}), // twice, but enough others
+		rverify("c1", []RSig{ok(3), ok(1)}, []RSig{ok(5), ok(6)}, []RSig{ok(1), ok(1)}),           // vector 2 lists key 1 once
+		rsubmit("c1", []RSig{ok(1), ok(1)}, []RSig{ok(5), ok(6)}, []RSig{ok(1), ok(2)}),
+		rsubmit("c1", []RSig{ok(1), ok(2)}, []RSig{ok(5), ok(5)}, []RSig{ok(1), ok(2)}),
+		rsubmit("c1", []RSig{ok(2), ok(1)}, []RSig{ok(6), ok(5)}, []RSig{ok(1), ok(2)}),
+		// REP 3 over 1,2,3,1: A twice and B are two members, not three
+		dupAdd("c1", 0, 1, 3), rcommit("c1", 3),
+		rverify("c1", []RSig{ok(1), ok(1), ok(2)}),
+		rverify("c1", []RSig{ok(1), mal(1), ok(2)}),
+		rverify("c1", []RSig{ok(2), ok(1), ok(1)}),
+		rverify("c1", []RSig{ok(1), ok(2), ok(3)}),
+		rverify("c1", []RSig{ok(1), ok(1), ok(2), ok(3)}),
+		rsubmit("c1", []RSig{ok(1), ok(1), ok(2)}),
+		// a roster that is one key listed three times: one member
+		dupAdd("c3", 0, 9, 1), radd("c3", 0, 9, 1), rcommit("c3", 2),
+		rverify("c3", []RSig{ok(9), ok(9)}),
+		rverify("c3", []RSig{ok(9), mal(9), ok(9)}),
+		rcommit("c3", 1),
+		rverify("c3", []RSig{ok(9)}),
+	}}
+}
+
 func driveRoster(t *testing.T, out string) {
 	seed, _ := strconv.ParseInt(os.Getenv("VERIF_SEED"), 10, 64)
 	nrand, _ := strconv.Atoi(os.Getenv("VERIF_NRAND"))
@@ -668,7 +763,7 @@ func driveRoster(t *testing.T, out string) {
 		}
 	}
 	if os.Getenv("VERIF_NOTRAPS") == "" {
-		scs = append(scs, trapDupSigner(1), trapDupSigner(4), trapLongRoster(3), trapLongRoster(7))
+		scs = append(scs, trapDupSigner(1), trapDupSigner(4), trapLongRoster(3), trapLongRoster(7), trapRepeatedKeys(1), trapRepeatedKeys(3))
 	}
 	r := rand.New(rand.NewSource(seed*104729 + 5))
 	for i := 0; i < nrand; i++ {
